@@ -48,7 +48,7 @@ theorem flat_left_facts (S : Schema) {L A Lr : List Node} {p k : Nat} (h : FlatA
         omega
       · rw [hsplit, checkKids_append] at hk
         simp only [Bool.and_eq_true, checkKids_cons, checkNode_text] at hk
-        simp only [checkKids_append, checkKids_cons, checkNode_text, Schema.checkKids, hkA, hk.2.1, Bool.and_self]
+        simp only [checkKids_append, checkNode_text, Schema.checkKids, hkA, hk.2.1, Bool.and_self]
       · rw [e1]; simp [sigOf, Schema.tyOf, Node.tyOr, Node.marks]
 
 /-- the children behind a flat position, the half text child included -/
